@@ -45,6 +45,7 @@ type Event struct {
 	Err    string // "" = nil error
 	Code   string // gRPC code of Err ("OK" if nil)
 	Detail string // op specific (decoded message identity, metadata, ...)
+	Thread string // thread that made the observation
 }
 
 func (e Event) String() string {
@@ -59,6 +60,9 @@ func (e Event) String() string {
 }
 
 func (w *World) Log(e Event) {
+	if th := w.S.Me(); th != nil {
+		e.Thread = th.Name
+	}
 	w.mu.Lock()
 	e.Step = w.step
 	w.Events = append(w.Events, e)
@@ -260,4 +264,26 @@ func s2cKind(m *tunnelpb.ServerToClient) string {
 		return "nil"
 	}
 	return fmt.Sprintf("%T", m.Frame)
+}
+
+// sutTransient reports whether a thread belongs to the code under test and is not a
+// tunnel receive loop (i.e. it serves one RPC or one frame and must end by itself).
+func sutTransient(name string) bool {
+	if !strings.Contains(name, ".go:") {
+		return false
+	}
+	last := name[strings.LastIndexByte(name, '/')+1:]
+	return !strings.Contains(last, ":newTunnelChannel#")
+}
+
+// Drain waits until every per-RPC thread of the code under test has finished.
+func (w *World) Drain() {
+	w.WaitUntil("drain", func() bool {
+		for _, th := range w.S.Threads {
+			if !th.Done && sutTransient(th.Name) {
+				return false
+			}
+		}
+		return true
+	})
 }
